@@ -7,9 +7,28 @@ pub fn main(args: &[String]) {
     let mut out = std::io::stdout();
     let mut inp = std::io::stdin();
     // the real hook passes extra args ("xml-mode" …) after ours only if asked; ignore unknown tokens
+    let mut queued: Vec<u8> = vec![];
     for tok in args {
-        if let Some(h) = tok.strip_prefix("w:") {
-            let bs = crate::util::unhex(h).expect("hex");
+        if let Some(k) = tok.strip_prefix("p:") {
+            // queue pattern(k); written together with the next `w:`
+            queued.extend(crate::frame::pattern(k.parse().expect("count")));
+        } else if let Some(ms) = tok.strip_prefix("echo:") {
+            // after <ms> ms copy stdin to stdout until EOF (a slow reader that sends everything back)
+            std::thread::sleep(std::time::Duration::from_millis(ms.parse().unwrap()));
+            let mut buf = vec![0u8; 65536];
+            loop {
+                match inp.read(&mut buf) {
+                    Ok(0) | Err(_) => std::process::exit(0),
+                    Ok(n) => {
+                        if out.write_all(&buf[..n]).is_err() || out.flush().is_err() {
+                            std::process::exit(0);
+                        }
+                    }
+                }
+            }
+        } else if let Some(h) = tok.strip_prefix("w:") {
+            let mut bs = std::mem::take(&mut queued);
+            bs.extend(if h == "-" { vec![] } else { crate::util::unhex(h).expect("hex") });
             if out.write_all(&bs).is_err() || out.flush().is_err() {
                 std::process::exit(0);
             }
